@@ -1,5 +1,6 @@
 import Ebv.Lemmas.CondProg
 import Ebv.Lemmas.CondSurface
+import Ebv.Lemmas.AbsSeg
 /-! # C03 — conditional blocks run exactly the branch the condition selects
 
 Model: `Ebv.Gen` + `Ebv.Model.GenCond` (comparisons, `with`/`Else`, placeholders patched by index, the
@@ -17,7 +18,10 @@ Proof chain (Lemmas/Cond*.lean):
   the precondition);
 * `Gen.with_correct` — induction on statements (`with`, `with … as Else` incl. the JSET splice, sequences, C01's
   assignments): the emitted code is a closed segment realising the structured big-step semantics;
-* below: programs in terms of `Ebpf.run`, the decidable hypotheses, refutations of the defect classes. -/
+* `Gen.abs_segment`, `Gen.abs_top_correct` (Lemmas/AbsSeg.lean) — the sign test + negation of `abs` as a closed segment at
+  the width of the computation (the repaired class *abs-32*), and `abs` on top of an operand of C01's fragment;
+* below: programs in terms of `Ebpf.run`, the decidable hypotheses, refutations of the defect classes that are left,
+  `before_fix_*` regression witnesses of the repaired ones. -/
 namespace Ebv.C03
 open Ebv.Ebpf Ebv.Gen Ebv.C01
 
@@ -119,14 +123,27 @@ def classesOf (p : CProg) : List String := progClasses (layout p.vars) p.owned p
 instance (w : Nat) (z : Int) : Decidable (fitsS w z) := by unfold fitsS; infer_instance
 instance (w : Nat) (z : Int) : Decidable (fitsU w z) := by unfold fitsU; infer_instance
 
-/-- *u64-vs-negative-short*: `with self.r5 <= self.lsi: self.r6 = 1` with r5 = 256, lsi = −2³¹: the right side is
-loaded zero-extended and compared in 64 bits, the body runs although 256 ≤ −2³¹ is false -/
+/-- a signed right operand of a 64-bit unsigned left operand is computed in 64 bits (repaired; was class
+*u64-vs-negative-short*): `with self.r5 <= self.lsi: self.r6 = 1` with r5 = 256, lsi = −2³¹ -/
 def cU : SCond := .cmp .le (.reg .r 5) (.var "lsi")
 def pU : CProg := ⟨[5, 6, 10], [⟨"lsi", .i, .loc⟩], .ifThen cU (.set (.reg .r 6) (.c 1))⟩
 def sU : State := st0 [(5, 256), (6, 0), (10, 4096)] [(4095, 128)]
 
-theorem u64_vs_negative_short_refuted : (emitCProg pU).toOption.isSome = true ∧
-    classesOf pU = ["u64-vs-negative-short"] ∧ regAfter (codeOfC pU) sU 6 = 1 ∧ truthOf pU cU sU = false := by
+/-- what the program emitted **before the fix**: `SimpleComparison.compare` asked for the right operand in 64 bits only
+when the *left* operand was signed; here lsi is loaded zero-extended and compared (signed) in 64 bits -/
+def before_fix_codeU : List Insn :=
+  [⟨Consts.op_LD + Consts.op_W, 0, 10, -4, 0⟩, ⟨Consts.op_JSGT + Consts.op_REG, 5, 0, 1, 0⟩,
+   ⟨Consts.op_MOV + Consts.op_LONG, 6, 0, 0, 1⟩]
+
+/-- **regression witness** (formerly `u64_vs_negative_short_refuted`): the old code runs the body although
+256 ≤ −2³¹ is false; the repaired generator sign-extends lsi to 64 bits (the shift pair), `pU` is in no class, satisfies
+every hypothesis of `C03_partial`, and the body does not run -/
+theorem before_fix_u64_vs_negative_short :
+    regAfter before_fix_codeU sU 6 = 1 ∧ truthOf pU cU sU = false ∧
+    (emitCProg pU).toOption = some [⟨Consts.op_LD + Consts.op_W, 0, 10, -4, 0⟩, ⟨Consts.op_LSH + Consts.op_LONG, 0, 0, 0, 32⟩,
+      ⟨Consts.op_ARSH + Consts.op_LONG, 0, 0, 0, 32⟩, ⟨Consts.op_JSGT + Consts.op_REG, 5, 0, 1, 0⟩,
+      ⟨Consts.op_MOV + Consts.op_LONG, 6, 0, 0, 1⟩] ∧
+    classesOf pU = [] ∧ progOkC pU = true ∧ regAfter (codeOfC pU) sU 6 = 0 := by
   decide +kernel
 
 /-- *narrow-reg-in-64* at the comparison: `with self.w1 > 32767: self.r6 = 1` with r1 = 2³² (w1 = 0): all 64
@@ -147,22 +164,46 @@ theorem widen_in_place_refuted : (emitCProg pW).toOption.isSome = true ∧
     classesOf pW = ["widen-in-place"] ∧ regAfter (codeOfC pW) sW 8 = 225626461 := by
   decide +kernel
 
-/-- *unary-in-place* (inherited from C01): `with self.w1 < -self.w4: pass` negates r4 itself -/
+/-- unary operators work on a copy (repaired with C01; was class *unary-in-place*): `with self.w1 < -self.w4: pass` -/
 def pI : CProg := ⟨[1, 4, 10], [], .ifThen (.cmp .lt (.reg .w 1) (.neg (.reg .w 4))) .skip⟩
 def sI : State := st0 [(1, 5), (4, 3), (10, 4096)]
 
-theorem unary_in_place_refuted : (emitCProg pI).toOption.isSome = true ∧
-    "unary-in-place" ∈ classesOf pI ∧ regAfter (codeOfC pI) sI 4 = 4294967293 := by
+/-- what the condition emitted **before the fix**: the `NEG` on the user's r4, then the jump -/
+def before_fix_codeI : List Insn :=
+  [⟨Consts.op_NEG, 4, 0, 0, 0⟩, ⟨Consts.op_JSGE + Consts.op_SHORT + Consts.op_REG, 1, 4, 0, 0⟩]
+
+/-- **regression witness** (formerly `unary_in_place_refuted`): the old code changes r4 (3 → 2³² − 3); the repaired
+generator negates a copy in the free register r0, `pI` is in no class, satisfies every hypothesis of `C03_partial`,
+and r4 keeps its value -/
+theorem before_fix_unary_in_place :
+    regAfter before_fix_codeI sI 4 = 4294967293 ∧
+    (emitCProg pI).toOption = some [⟨Consts.op_MOV + Consts.op_REG, 0, 4, 0, 0⟩, ⟨Consts.op_NEG, 0, 0, 0, 0⟩,
+      ⟨Consts.op_JSGE + Consts.op_SHORT + Consts.op_REG, 1, 0, 0, 0⟩] ∧
+    classesOf pI = [] ∧ progOkC pI = true ∧ regAfter (codeOfC pI) sI 4 = 3 := by
   decide +kernel
 
-/-- *unary-32-in-64* (inherited from C01): `with self.lsq > -self.lsh: self.r6 = 1` with lsq = lsh = 3: −3 is
-computed in 32 bits and zero-extended, the body does not run although 3 > −3 -/
+/-- unary operators in a 64-bit comparison (repaired with C01; was class *unary-32-in-64*):
+`with self.lsq > -self.lsh: self.r6 = 1` with lsq = lsh = 3 -/
 def cM : SCond := .cmp .gt (.var "lsq") (.neg (.var "lsh"))
 def pM : CProg := ⟨[6, 10], [⟨"lsq", .q, .loc⟩, ⟨"lsh", .h, .loc⟩], .ifThen cM (.set (.reg .r 6) (.c 1))⟩
 def sM : State := st0 [(6, 0), (10, 4096)] [(4088, 3), (4086, 3)]
 
-theorem unary_32_in_64_refuted : (emitCProg pM).toOption.isSome = true ∧
-    classesOf pM = ["unary-32-in-64"] ∧ regAfter (codeOfC pM) sM 6 = 0 ∧ truthOf pM cM sM = true := by
+/-- what the program emitted **before the fix**: −lsh is computed with the 32-bit `NEG` and compared in 64 bits -/
+def before_fix_codeM : List Insn :=
+  [⟨Consts.op_LD + Consts.op_DW, 0, 10, -8, 0⟩, ⟨Consts.op_LD + Consts.op_H, 1, 10, -10, 0⟩,
+   ⟨Consts.op_LSH + Consts.op_LONG, 1, 0, 0, 48⟩, ⟨Consts.op_ARSH + Consts.op_LONG, 1, 0, 0, 48⟩, ⟨Consts.op_NEG, 1, 0, 0, 0⟩,
+   ⟨Consts.op_JSLE + Consts.op_REG, 0, 1, 1, 0⟩, ⟨Consts.op_MOV + Consts.op_LONG, 6, 0, 0, 1⟩]
+
+/-- **regression witness** (formerly `unary_32_in_64_refuted`): the old code skips the body although 3 > −3 (−3 became
+2³² − 3); the repaired generator negates in 64 bits, `pM` is in no class, satisfies every hypothesis of `C03_partial`, and
+the body runs -/
+theorem before_fix_unary_32_in_64 :
+    regAfter before_fix_codeM sM 6 = 0 ∧ truthOf pM cM sM = true ∧
+    (emitCProg pM).toOption = some [⟨Consts.op_LD + Consts.op_DW, 0, 10, -8, 0⟩, ⟨Consts.op_LD + Consts.op_H, 1, 10, -10, 0⟩,
+      ⟨Consts.op_LSH + Consts.op_LONG, 1, 0, 0, 48⟩, ⟨Consts.op_ARSH + Consts.op_LONG, 1, 0, 0, 48⟩,
+      ⟨Consts.op_NEG + Consts.op_LONG, 1, 0, 0, 0⟩,
+      ⟨Consts.op_JSLE + Consts.op_REG, 0, 1, 1, 0⟩, ⟨Consts.op_MOV + Consts.op_LONG, 6, 0, 0, 1⟩] ∧
+    classesOf pM = [] ∧ progOkC pM = true ∧ regAfter (codeOfC pM) sM 6 = 1 := by
   decide +kernel
 
 /-- *const-left-32*: `with 5 - self.lsq > 0: self.r6 = 1` with lsq = 2³² + 1: the subtraction is done in 32 bits
@@ -177,30 +218,30 @@ theorem const_left_32_refuted : (emitCProg pC).toOption.isSome = true ∧
 
 deriving instance DecidableEq for KStmt
 
-/-- the elaborated witness program of *u64-vs-negative-short* -/
-def cUo : CObj := .simple .le true (.reg 5 true false) (.mem .i (sumAddr 10 (-4)))
-def kU : KStmt := .ifThen cUo (.set (.reg 6 true (.const 1)))
+/-- the elaborated witness program of *narrow-reg-in-64* -/
+def cNo : CObj := .simple .gt false (.reg 1 false false) (.const 32767)
+def kN : KStmt := .ifThen cNo (.set (.reg 6 true (.const 1)))
 
-/-- **the unchanged generator violates the full-strength statement** -/
+/-- **the generator still violates the full-strength statement** (witness: *narrow-reg-in-64*, pinned by the suite) -/
 theorem C03_full_refuted : ¬ C03_full := by
   intro h
-  obtain ⟨hacc, _, hreg, _⟩ := u64_vs_negative_short_refuted
-  have hk : compileS (layout pU.vars) pU.body = some kU := by decide +kernel
-  have htyped : kU.typedB pU.owned = true := by decide +kernel
-  obtain ⟨σ', hrun, hsem⟩ := h pU kU (codeOfC pU) hk htyped (codeOfC_ok pU hacc) sU
-  simp only [kU, KStmt.semZ] at hsem
-  have hpre : cUo.pre sU := by
-    simp only [cUo, CObj.pre, atomPre]
+  obtain ⟨hacc, _, hreg, _⟩ := narrow_reg_in_64_refuted
+  have hk : compileS (layout pN.vars) pN.body = some kN := by decide +kernel
+  have htyped : kN.typedB pN.owned = true := by decide +kernel
+  obtain ⟨σ', hrun, hsem⟩ := h pN kN (codeOfC pN) hk htyped (codeOfC_ok pN hacc) sN
+  simp only [kN, KStmt.semZ] at hsem
+  have hpre : cNo.pre sN := by
+    simp only [cNo, CObj.pre, atomPre]
     refine ⟨by simp [shiftsOk], fun _ => by simp [shiftsOk], ?_⟩
     decide +kernel
   obtain ⟨σ1, hk1, hrest⟩ := hsem hpre
-  have ht : cUo.truth sU = false := by decide +kernel
+  have ht : cNo.truth sN = false := by decide +kernel
   rw [ht] at hrest
   simp only [Bool.false_eq_true, if_false] at hrest
-  have h6 : σ'.regs 6 = sU.regs 6 := by
+  have h6 : σ'.regs 6 = sN.regs 6 := by
     rw [hrest.1 6 (by decide), hk1.1 6 (by decide)]
   have := regAfter_of_run (k := 6) hrun
-  have e : ({ sU with pc := 0 } : State) = sU := rfl
+  have e : ({ sN with pc := 0 } : State) = sN := rfl
   rw [e, hreg, h6] at this
   revert this
   decide +kernel
